@@ -684,6 +684,9 @@ func (w *W) settleModel(m *TMelt) {
 	_, pst := meltExpect(m.Known)
 	for _, n := range m.Inputs {
 		w.Proofs[n].St = pst
+		if pst == Spent {
+			w.Proofs[n].Wit = m.Wits[n]
+		}
 		if pst == Pending {
 			w.Proofs[n].Melt = indexOfMelt(w, m)
 		}
@@ -706,8 +709,12 @@ func (w *W) opMelt(op string, mi int, ins, pay, status string) error {
 	m := w.Melts[mi]
 	var proofs cashu.Proofs
 	var idx []int
-	for _, n := range ints(ins) {
-		proofs = append(proofs, w.Proofs[n].P)
+	for k, n := range ints(ins) {
+		p := w.Proofs[n].P
+		if strings.HasSuffix(strings.Split(ins, ",")[k], "w") {
+			p.Witness = `{"signatures":["00"]}` // ignored for a plain secret, but it is the witness the proof is spent with
+		}
+		proofs = append(proofs, p)
 		idx = append(idx, n)
 	}
 	usedBefore, dup := false, false
@@ -767,6 +774,10 @@ func (w *W) opMelt(op string, mi int, ins, pay, status string) error {
 		}
 		if !usedBefore {
 			m.Inputs = idx
+			m.Wits = map[int]string{}
+			for k, n := range idx {
+				m.Wits[n] = proofs[k].Witness
+			}
 		}
 		if internalDone {
 			m.Known = "success"
